@@ -37,6 +37,7 @@ type AtCall struct {
 }
 
 type FuncContract struct {
+	View     string // non-empty: this contract replaces the function's contract when that property is checked
 	AtCalls  []*AtCall // caller-side obligations at the call sites of a named callee
 	Key      string // e.g. "(*Responses).Status", "Content.Get", "ValidateRequest", "strings.IndexByte", "(*Validator).Middleware$1"
 	Pkg      string // package path the contract was declared in ("" for trusted catalogue: Key is qualified)
@@ -185,7 +186,7 @@ func newContracts() *Contracts {
 // their package's (e.g. per-call error objects are not part of the shared document).
 var classOverride = map[string]string{}
 
-var declKeywords = map[string]bool{"propertylevel": true, "propertyclasses": true, "propertyscope": true, "refwalk": true, "fieldshape": true, "walkcomplete": true, "onlycalledby": true, "default-frame": true, "extend": true, "allmethods": true, "global": true, "guarded": true, "class": true, "func": true, "iface": true, "fnfield": true, "pred": true, "spec": true, "axiom": true,
+var declKeywords = map[string]bool{"propertylevel": true, "propertyclasses": true, "propertyscope": true, "refwalk": true, "fieldshape": true, "walkcomplete": true, "onlycalledby": true, "default-frame": true, "extend": true, "view": true, "allmethods": true, "global": true, "guarded": true, "class": true, "func": true, "iface": true, "fnfield": true, "pred": true, "spec": true, "axiom": true,
 	"lemma": true, "ghost": true, "generate": true, "trusted": true}
 var clauseKeywords = map[string]bool{"requires": true, "ensures": true, "modifies": true, "panics_if": true, "loop": true,
 	"atcall": true, "tag": true, "pure": true, "records": true, "preserves": true, "defines": true, "assuming": true, "secret": true, "untainted": true, "returns-untainted": true, "fresh": true, "reads": true, "option": true, "nosafety": true}
@@ -252,6 +253,19 @@ func (cs *Contracts) loadContractText(text, path, pkgPath string) error {
 			return fmt.Errorf("%s:%d: %s", l.file, l.line, fmt.Sprintf(f, a...))
 		}
 		isExt := false
+		viewProp := ""
+		if first == "view" {
+			// `view C13 func K`: the contract of K used when property C13 is checked (the scope,
+			// frame and clauses of K under its other properties do not apply there)
+			viewProp = firstWord(rest)
+			rest = strings.TrimSpace(rest[len(viewProp):])
+			w := firstWord(rest)
+			rest = strings.TrimSpace(rest[len(w):])
+			if w != "func" {
+				return fail("expected 'view <property> func <key>'")
+			}
+			first = "func"
+		}
 		if first == "extend" {
 			w := firstWord(rest)
 			rest = strings.TrimSpace(rest[len(w):])
@@ -287,6 +301,10 @@ func (cs *Contracts) loadContractText(text, path, pkgPath string) error {
 			if kind == "trusted" {
 				id = "::" + key
 				cur.Pkg = ""
+			}
+			if viewProp != "" {
+				id += "@" + viewProp
+				cur.View = viewProp
 			}
 			if isExt {
 				cs.Extensions = append(cs.Extensions, cur)
